@@ -10,6 +10,8 @@ ASSUMPTIONS = ["the real reader/worker/sorter threads run on virtual threading/q
 
 PARTS = pf_parts.parts("C11")
 
+from . import pm_statefail
+PARTS.append(_compose.Part("pm_statefail", pm_statefail.run_ko, pm_statefail.replay))
 try:
     from . import pm_parts
     PARTS += pm_parts.parts("C11")
